@@ -205,6 +205,7 @@ async def play(lab: L.Lab, case: dict, port: int, bind_port: int | None) -> dict
                 'id': s.id,
                 'origin': s.origin,
                 'eof_at': s.eof_at,
+                'closed_local_at': s.closed_local_at,
                 'reset': s.reset_seen,
                 'rx': [[round(t, 4), ty, body.hex() if len(body) <= 256 else body[:256].hex() + f'..+{len(body) - 256}'] for t, ty, body in s.timed_messages()],
                 'rx_len': len(s.rx),
